@@ -136,8 +136,27 @@ class Run:
 
     def ob(self, oid, title, why, floor=1):
         o = Obligation(self, oid, title, why, floor)
-        self.obligations.append(o)
+        keep = getattr(self, "only", None)
+        if keep is None or keep(oid):
+            self.obligations.append(o)
+        # else: composed from another property's module, but not part of what the composing property needs: evaluated and discarded
         return o
+
+    def restricted(self, keep):
+        """context manager: while active, only obligations whose id satisfies `keep` are registered (used to compose a subset of another
+        property's obligations without refactoring that module)"""
+        run = self
+
+        class _R:
+            def __enter__(self_):
+                self_.prev = getattr(run, "only", None)
+                run.only = keep if self_.prev is None else (lambda oid, a=self_.prev, b=keep: a(oid) and b(oid))
+                self_.nnotes = len(run.notes)
+
+            def __exit__(self_, *exc):
+                run.only = self_.prev
+                return False
+        return _R()
 
     def selftest(self, name, fired, expected):
         """fixture self-test: detector `name` fired (bool) vs expected (bool)"""
